@@ -2,6 +2,7 @@
    batches is C06's stats_additive). *)
 From Coq Require Import String ZArith List Bool Arith.
 From SynRBL Require Import Base.Dict Model.Comp Model.Matcher Model.Pipeline Proofs.PipelineProofs Proofs.RowLocal Proofs.Balanced Proofs.RunLevel Proofs.StatsAdd Proofs.StatsBounds Base.Strs Proofs.CompProofs Proofs.WaterFact.
+Open Scope nat_scope.
 Import ListNotations.
 Open Scope string_scope.
 
